@@ -148,7 +148,7 @@ func (c *copier) prepareTargetDir(srcFollowed, src, destPath string, copyDirCont
 		return "", nil, err
 	}
 
-	fiDest, err := os.Stat(destPath)
+	fiDest, err := os.Lstat(destPath)
 	if err != nil {
 		if !os.IsNotExist(err) {
 			return "", nil, errors.Wrap(err, "failed to lstat destination path")
